@@ -5,7 +5,7 @@
    budget being the number of storage calls after which the process dies (counted from the first
    call of Start, so deaths inside start-up recovery — also of an incarnation that is itself
    recovering from a death — are included); [run_history c store0 h] starts from the empty store. *)
-From Verif Require Import Common.Base C01.Model C01.Spec C01.Proofs1 C01.Proofs2 C01.Proofs3 C01.Proofs4 C01.Proofs5 C01.Proofs6 C01.Proofs7 C01.Checker C01.Proofs8 C01.Proofs9 C01.Harness C01.Proofs10 C01.Translated.
+From Verif Require Import Common.Base C01.Model C01.Spec C01.Proofs1 C01.Proofs2 C01.Proofs3 C01.Proofs4 C01.Proofs5 C01.Proofs6 C01.Proofs7 C01.Checker C01.Proofs8 C01.Proofs9 C01.Harness C01.Proofs10 C01.Proofs11 C01.Translated.
 From Verif Require Generated.C01Queue Generated.C01Storage.
 From Coq Require Import Sorted Permutation.
 
@@ -251,6 +251,17 @@ Theorem checker_events_are_model_events : forall c st sc b,
   obs_events sc (map code_of_res (i_obs (incarnation c st sc b))) (i_died (incarnation c st sc b)) [].
 Proof. exact incarnation_events_link. Qed.
 Print Assumptions checker_events_are_model_events.
+
+(* ... and on the WIRE form, i.e. on the very case term of the correspondence run: encode the model's stores with the
+   codecs as the harness prints the real bytes, decode them as the checker does, judge — the verdict is "every clause holds"
+   for every configuration and every history whose stores stay within the codecs' ranges.  [run_bounded]: after every
+   incarnation the stored indexes, size snapshot and request ids are < 2^64 and fewer than 2^32 entries are listed as
+   dispatched (an explicit hypothesis: the model's N is unbounded, the wire form is 8-byte / 4-byte little endian). *)
+Theorem model_run_passes_clause_checker_on_the_wire : forall cap rs bl h,
+  run_bounded (mkCfg cap rs bl) store0 (hist_of h) ->
+  prop_ok (CHist cap rs bl h (model_hist cap rs bl h)) = true.
+Proof. exact model_case_passes_l. Qed.
+Print Assumptions model_run_passes_clause_checker_on_the_wire.
 
 (* ---- translator obligations (T1 re-reads the Go source on every run; see C01/Translated.v) ---- *)
 Theorem t1_bytesToItemIndex_matches_go : forall buf,
